@@ -8,10 +8,12 @@ def check(run):
                 'rbql.query of the tree behind recording iterator/writer; rows/header/error compared with TLC\'s Ref; events judged by TLC monitors; '
                 'non-trivial = >= 2 input records and (>= 1 output row or an error); distinct by case content hash')
     run.assumptions = ['expression vocabulary of RbqlValues (fields, literals, concatenation, NR/NF, comparisons, star forms, EXCEPT, UNNEST)']
-    ec.spec_mutant(run, 'Q_C04pairs', 'R_w2', 'unnest_reset_per_record', recsB='R_w2', maxA=1, maxB=2)
-    ec.run_family(run, 'C01a-items<=2', 'Q_C01a', 'R_w2N', maxA=2 if quick else 3)
+    ec.spec_mutant(run, 'Q_C04pairs', 'R_2x2', 'unnest_reset_per_record', recsB='R_2x2', maxA=1, maxB=2)
+    ec.run_family(run, 'C01a-items<=2', 'Q_C01a', 'R_w2N' if not quick else 'R_q4', maxA=2 if quick else 3)
+    if quick:
+        ec.run_family(run, 'C01a-none-cells', 'Q_C01a', 'R_w2N', maxA=1)
     ec.run_family(run, 'C01-except', 'Q_C01exc', 'R_w3N', maxA=2 if quick else 3, hdrmodes=(False, True))
-    ec.run_family(run, 'C01-join', 'Q_C01join', 'R_w2', recsB='R_w2', maxA=2, maxB=2 if quick else 3)
+    ec.run_family(run, 'C01-join', 'Q_C01join', 'R_w2' if not quick else 'R_q4', recsB='R_w2' if not quick else 'R_q4', maxA=2, maxB=2 if quick else 3)
     ec.run_family(run, 'C01-join-pairs', 'Q_C04pairs', 'R_w2N' if not quick else 'R_w2', recsB='R_w2', maxA=2, maxB=2)
     run.exhaustive = True
 
